@@ -1,0 +1,13 @@
+//go:build verif
+
+package git
+
+import (
+	"github.com/go-git/go-git/v6/plumbing"
+	"github.com/go-git/go-git/v6/plumbing/storer"
+)
+
+// VerifIsFastForward exposes isFastForward to the verification harness (C42).
+func VerifIsFastForward(s storer.EncodedObjectStorer, old, newHash plumbing.Hash, shallows []plumbing.Hash) (bool, error) {
+	return isFastForward(s, old, newHash, shallows)
+}
